@@ -269,7 +269,8 @@ def expectation(doc, ep, vec):
                 else:
                     fields[k] = (epwork.wire_str(("j", v)).encode() if not isinstance(v, bool) else str(v).encode(), "text/plain")
             for attr, hx in (bv[3] if len(bv) > 3 else {}).items():
-                fields[attr] = (bytes.fromhex(hx), "application/x-test")        # a File attribute: its bytes, under the declared name, with the File's own mime type
+                # a File attribute: its bytes, under the declared name, with the File's own mime type; an array of files: one part per element
+                fields[attr] = ([bytes.fromhex(h) for h in hx], "application/x-test-list") if isinstance(hx, list) else (bytes.fromhex(hx), "application/x-test")
             exp["multipart_fields"] = fields
         if ct == "application/octet-stream" and bv[0] == "file":
             exp["raw_body_hex"] = bv[1]
@@ -351,7 +352,7 @@ def check_request(exp, call):
         else:
             bnd = ct.split("boundary=")[1].encode()
             raw = bytes.fromhex(r["content_hex"])
-            got = {}
+            got, got_all = {}, {}
             for part in raw.split(b"--" + bnd):
                 if b"\r\n\r\n" not in part:
                     continue
@@ -366,12 +367,17 @@ def check_request(exp, call):
                         pct = line.split(b":", 1)[1].strip().decode()
                 if name is not None:
                     got[name] = (body, pct)
+                    got_all.setdefault(name, []).append(body)
             for name, (want, wct) in exp["multipart_fields"].items():
                 if name not in got:
                     bad.append(f"multipart field {name!r} missing")
                 else:
                     b_, pct = got[name]
                     if wct == "unspecified":
+                        continue
+                    if wct == "application/x-test-list":
+                        if got_all.get(name) != want:
+                            bad.append(f"multipart file list {name!r}: parts {[x[:20] for x in got_all.get(name, [])]!r} != one part per file {[x[:20] for x in want]!r}")
                         continue
                     if wct == "application/json":
                         try:
@@ -603,6 +609,10 @@ def run(run, tier, replay=None):
     run.extra["body_plans_compared"] = len(pterms) - len(mterms)
     bad = set(run_cases(hdr, terms, shard=250))
     run.corr = {"cases": len(terms) + len(pterms), "mismatches": len(bad) + len(pbad), "what": "body_from_data media-type decisions == Parse.body_plan; generated _get_kwargs(**args) (method, url, params, cookies, headers, json/data body; or exception) == Endpoint.get_kwargs on the endpoint abstracted from the implementation's parse"}
+    def _file_list_case(c):
+        bodyv = c["vec"].get("body") or []
+        return len(bodyv) > 3 and any(isinstance(x, list) and x for x in bodyv[3].values()) and "not JSON serializable" in (c["kw"].get("exc") or {}).get("msg", "")
+    bad = {i for i in bad if not (_file_list_case(meta[i][1]) and "multipart_file_list" in run.known)}      # binary values are outside the model (no pv constructor): oracle-only finding
     for i in sorted(bad)[:8]:
         di, c = meta[i]
         mv = coq_eval(hdr, f"get_kwargs T{di} 40 {c['cep']} {c['cargs'].replace('O@', f'O{di}').replace('T@', f'T{di}')}")
@@ -631,6 +641,10 @@ def run(run, tier, replay=None):
                     continue
                 if "exc" in c["kw"] and c["kw"]["exc"].get("type") == "TypeError" and "isinstance() arg 2" in c["kw"]["exc"].get("msg", "") and c["op"] == "multipart_null_first" \
                         and run.known_finding("multipart_none_member_first", what):
+                    continue
+                bodyv = c["vec"].get("body") or []
+                if len(bodyv) > 3 and any(isinstance(x, list) and x for x in bodyv[3].values()) and (call.get("exc") or {}).get("type") == "TypeError" \
+                        and "not JSON serializable" in (call.get("exc") or {}).get("msg", "") and run.known_finding("multipart_file_list", what):
                     continue
                 if "exc" in c["kw"]:
                     # _get_kwargs itself raises: the model predicts it (stage B agrees) - e.g. encoder given a value outside its domain
